@@ -32,6 +32,8 @@ pub struct Profile {
 fn base_cfg(rng: &mut Rng, _cache: CacheMode, _ctx: &Ctx) -> (StorageCfg, TopicCfg) {
     let mut c = StorageCfg::random(rng);
     c.no_wait = rng.chance(1, 5);
+    // encryption is orthogonal to every data property, but some code paths exist only with it: on in one history out of six
+    c.encryption = rng.chance(1, 6);
     let t = TopicCfg { partitions: rng.range(1, 3) as u32, expiry_us: 0, max_size: 0 };
     (c, t)
 }
@@ -61,6 +63,7 @@ fn retention_cfg(rng: &mut Rng, _cache: CacheMode, _ctx: &Ctx) -> (StorageCfg, T
     let mut c = StorageCfg::random(rng);
     c.segment_size = *rng.pick(&[400, 700, 1000, 2000]);
     c.no_wait = false;
+    c.encryption = rng.chance(1, 6);
     c.default_expiry_us = *rng.pick(&[0u64, 60_000_000]);
     c.delete_oldest = rng.chance(1, 4); // irrelevant while the topic is unlimited
     let expiry_us = *rng.pick(&[0u64, 1_000_000, 60_000_000, 86_400_000_000, u64::MAX]);
@@ -72,6 +75,7 @@ fn sizelimit_cfg(rng: &mut Rng, _cache: CacheMode, _ctx: &Ctx) -> (StorageCfg, T
     let mut c = StorageCfg::random(rng);
     c.segment_size = *rng.pick(&[1000, 2000, 4000, 8000]);
     c.no_wait = false;
+    c.encryption = rng.chance(1, 6);
     c.delete_oldest = rng.chance(1, 2);
     let seg = c.segment_size;
     c.default_max_topic_size = *rng.pick(&[0, seg * 2]);
